@@ -24,6 +24,9 @@ fn main() {
         ("drive", "xlsx_strings") => props::xlsx_strings::drive(&args),
         ("replay", "shared_formula") => props::shared_formula::replay(&args),
         ("drive", "shared_formula") => props::shared_formula::drive(&args),
+        ("replay", "numfmt") => props::numfmt::replay(&args),
+        ("drive", "numfmt") => props::numfmt::drive(&args),
+        ("replay", "numfmt_builtin") => props::numfmt::builtin_files(&args),
         ("replay", "de") => props::de::replay(&args),
         ("drive", "de") => props::de::drive(&args),
         _ => {
